@@ -33,6 +33,9 @@ ASSUMPTIONS = [
     "entry tolerance 1e-9 s_i s_j with s^2 = trace of the 3x3 diagonal block of |M| |C0| |M|^T (rounding scale of the "
     "formula); C0 = A diag(10^(c + U(-5,5))) A^T with A orthogonal (condition <= 1e10), half of the cases rescaled "
     "to metres / metres per second standard deviations",
+    "reattach: the same Cov object is attached to another state (other date within +-6 h, other orbit, given in a "
+    "non-rotating frame); from then on the oracle is M C M^T with C the values at that moment, in the frame they are "
+    "labelled with, and M built for the new state and date (1 history in 8 starts convert / carry / convert again)",
     "copy_cov may re-attach the copy to the state (orb.cov = copy), whatever frame the state is in by then",
     "EOP configuration 'zero' on even shards, 'real' on odd shards; dates 1975 .. 2016",
 ]
@@ -82,10 +85,26 @@ def history(draw):
     t = int(u() * span)
     if draw(st.integers(0, 9)) == 0:
         t = t // (3600 * 10**6) * 3600 * 10**6
+    def reattach():
+        # the same Cov object is carried to another state: other date (up to +-6 h), other position / velocity
+        return dict(op="reattach", dt=0.0 if draw(st.integers(0, 9)) == 0 else u(-21600.0, 21600.0),
+                    el=draw(go.elements(hyperbolic=False, emax_ell=0.9, rp_range=(1.03, 7.0))),
+                    frame=pick([None, None, None] + START))
+
     ops = []
-    for _ in range(draw(st.integers(1, 5))):
-        k = draw(st.integers(0, 19))
-        if k < 10:
+    if draw(st.integers(0, 7)) == 0:
+        # directed prefix: a conversion, possibly its way back, then the covariance is carried to another state
+        g = pick(BUILTIN)
+        ops.append(dict(op="cov_to", frame=g, how="str"))
+        if draw(st.booleans()):
+            ops.append(dict(op="cov_to", frame=None, how="str"))   # None = back to the frame the history started in
+        ops.append(reattach())
+        ops.append(dict(op=pick(["cov_to", "cov_to", "state_to"]), frame=g, how="str"))
+    for _ in range(draw(st.integers(1, 5)) - len(ops)):
+        k = draw(st.integers(0, 21))
+        if k >= 20:
+            ops.append(reattach())
+        elif k < 10:
             local = draw(st.integers(0, 9)) < 4
             ops.append(dict(op="cov_to", frame=pick(LOCAL) if local else pick(BUILTIN), how=pick(["str", "str", "obj"])))
         elif k < 14:
@@ -132,6 +151,7 @@ class Model:
         self.date = Date(1975, 1, 1) + timedelta(microseconds=case["t"])
         self.start = case["start"]
         self.C0 = make_c0(case["cov"])
+        self.base = self.start          # frame in which C0 is expressed
         self.state_frame = self.start
         self.cov_frame = self.start
         self._m = {}
@@ -139,7 +159,23 @@ class Model:
         self.rotating_seen = False
         self.nt = False
 
+    def reattach(self, c, date, start, C, label):
+        """the covariance object, holding values C labelled `label`, now belongs to another state"""
+        self.c, self.date, self.start = np.asarray(c, float), date, start
+        self.C0, self.base = np.array(C, float), label
+        self.C0 = (self.C0 + self.C0.T) / 2
+        self.state_frame, self.cov_frame = start, label
+        self._m = {}
+        self.visited_other = label != start
+        self.nt = True
+
     def M(self, F):
+        """map base -> F = N(F) N(base)^-1, N(X) = map from the frame the state is given in to X"""
+        if self.base == self.start:
+            return self.N(F)
+        return self.N(F) @ np.linalg.inv(self.N(self.base))
+
+    def N(self, F):
         if F not in self._m:
             if F in LOCAL:
                 T = ig.triad(self.c, F)
@@ -201,7 +237,10 @@ def describe(case, upto):
     out = [f"start {case['start']}"]
     for op in case["ops"][: upto + 1]:
         f = op.get("frame")
-        out.append(f"{op['op']}({f})" + ("+adopt" if op.get("adopt") else ""))
+        if op["op"] == "reattach":
+            out.append(f"reattach(other state, {op['dt']:+.0f} s, {f or 'same frame'})")
+        else:
+            out.append(f"{op['op']}({f if f is not None else 'first frame'})" + ("+adopt" if op.get("adopt") else ""))
     return " -> ".join(out)
 
 
@@ -281,7 +320,32 @@ def check_history(case):
     for step, op in enumerate(case["ops"]):
         kind = op["op"]
         F = op.get("frame")
+        if F is None and kind in ("cov_to", "state_to"):
+            F = case["start"]
         cls.append(kind)
+        if kind == "reattach":
+            from beyond.dates import timedelta
+
+            el2 = op["el"]
+            c2 = tb.kep2cart(el2["a"], el2["e"], el2["i"], el2["raan"], el2["argp"], el2["nu"], model.mu)
+            date2 = model.date + timedelta(seconds=op["dt"])
+            start2 = op["frame"] or model.state_frame
+            if start2 in ROTATING:
+                start2 = case["start"]          # states are given in non-rotating frames
+            cov = orb.cov
+            kept = np.array(cov.base, float)
+            label = fname(cov.frame)
+            other = StateVector(c2, date2, "cartesian", start2)
+            other.cov = cov                      # the very same object, now about another state
+            if other.cov is not cov or not np.array_equal(np.asarray(cov.base, float), kept) or fname(cov.frame) != label:
+                raise Violation("reattach-changed", f"attaching the covariance to another state changed it "
+                                f"[{describe(case, step)}]", step=step)
+            orb = other
+            form = "cartesian"
+            model.reattach(c2, date2, start2, kept, label)
+            check_cov(model, orb.cov, model.cov_frame, step, worst=worst)
+            check_state(model, orb, form, step)
+            continue
         if kind == "cov_to":
             model.note(F)
             before = np.array(orb.base, float)
@@ -357,9 +421,9 @@ def check_history(case):
         check_state(model, orb, form, step)
     # return to the start frame restores C0 (a last hop that every history ends with)
     n = len(case["ops"])
-    orb.cov.frame = model.start
-    model.cov_frame = model.start
-    check_cov(model, orb.cov, model.start, n - 1, what="the covariance brought back to the start frame", worst=worst)
+    orb.cov.frame = model.base
+    model.cov_frame = model.base
+    check_cov(model, orb.cov, model.base, n - 1, what="the covariance brought back to the frame it was given in", worst=worst)
     if model.nt:
         cls.append("nontrivial")
     cls.append(f"len:{n}")
